@@ -9,17 +9,27 @@ from harness.core import sp
 from harness.core.trees import Universe, get_path
 
 PID = "C11"
-RULE = ("a case is one dataclass C over {int,float,str,bool,enum (plain Enum, IntEnum, str-mixin Enum incl. one whose values are other members' names),List[T],Tuple[T,..],Tuple[T,...]} registered at n destinations "
-        "under ALWAYS_MERGE in one of three shapes (flat: C at d0..d{n-1}; wrapped: P{m:C} at n destinations, with/without a "
-        "default_factory and an own field of P; siblings: S{m0..m{k-1}:C} at r destinations, n=r*k, per-member default "
-        "instances; flat also with add_arguments(default=instance) at every destination), with 1-3 fields, defaults incl. containers whose length equals n, and a command line giving each "
-        "field absent / 0..n+1 tokens (container tokens bare, quoted-blank-separated, comma, [..] and (..) forms; valid and "
-        "invalid words). A systematic sweep n x field type x value count x default length is enumerated in both tiers, "
-        "random multi-field cases on top; unit cases drive _parse_multiple_containers, FieldWrapper.__call__ "
+RULE = ("a case is one dataclass C over {int,float,str,bool,enum (plain Enum, IntEnum, str-mixin Enum incl. one whose values "
+        "are other members' names),List[T],Tuple[T,..] (homogeneous, and Tuple[int,str] / Tuple[str,int]),Tuple[T,...]} "
+        "registered at n destinations under ALWAYS_MERGE in one of four shapes (flat: C at d0..d{n-1}, optionally with "
+        "add_arguments(default=instance) at all / some / one of the destinations; wrapped: P{m:C} at n destinations, "
+        "with/without a default_factory and an own field of P; siblings: S{m0..m{k-1}:C} at r destinations, n=r*k, "
+        "per-member default instances, with/without an own field of S also for r>1; deep: Q{p:P{m:C}} at n destinations), "
+        "with 1-3 fields, defaults incl. containers whose length equals n, and a command line giving each field absent / "
+        "0..n+1 tokens (container tokens bare, quoted-blank-separated, comma, [..] and (..) forms; valid and invalid words), "
+        "sometimes the same option twice. A systematic sweep n x field type x value count x default length is enumerated in "
+        "both tiers, random multi-field cases on top; unit cases drive _parse_multiple_containers, FieldWrapper.__call__ "
         "(duplicate_if_needed + zip + postprocess), FieldWrapper.default/arg_options and DataclassWrapper.merge directly. "
         "Non-trivial = an end-to-end case where some field is given >= 1 token or has a container default; distinct by "
         "canonical JSON.")
 ASSUMPTIONS = [
+    "what a token denotes (oracle): a bare word is a one-element container; `[a,b]`, `a,b` and the quoted `a b` are the "
+    "container of their words, each converted by the item type of ITS position; a `(..)` token is Python tuple syntax and "
+    "is given a meaning only when every word is a Python literal (bools written True/False) — for other `(..)` tokens "
+    "(the code keeps the parentheses: List[str] `(a,b)` gives ['(a','b)']) and for words that are no value of the item "
+    "type the oracle demands nothing for that field",
+    "an option given twice is compared with the model only (argparse `store`: last occurrence); the property text does "
+    "not say which occurrence counts",
     "argparse nargs '*'/'+' consumption and type=/choices= application (stdlib)",
     "ast.literal_eval on the generated word shapes: canonical ints/floats/True/False/None are literals, identifier-like "
     "words are not (stdlib); generated float words satisfy repr(float(w)) == w",
@@ -30,20 +40,26 @@ TRUSTED = ["stdlib argparse and ast.literal_eval", "harness rendering of structu
 EXHAUSTIVE = {"quick": False, "thorough": False}
 THOROUGH_ROUNDS = 2   # thorough tier: this many generator passes with derived PRNG states (vcheck)
 MANIFEST = {
-    "text": ("Proof (full for the modelled configurations; one open finding outside them). Lean theorems over the model of the "
-             "reused FieldWrapper, for every n >= 2 (no bound) and every field type (scalar, List, Tuple): option absent -> "
-             "every destination gets the dataclass default whole (any default, a list/tuple of any length incl. n), or its own "
-             "default instance's value when the destinations carry default instances; one value -> every destination gets it; "
-             "n values -> the i-th destination gets the i-th value in registration order; any other count (incl. 0 with the "
-             "option present) -> InconsistentArgumentError; every token of a list/tuple field is one whole container (a bare "
-             "item is a one-element container), so destinations never receive elements. DataclassWrapper.merge keeps "
-             "destinations and default instances in registration order (any n). The model is tied to the code by five "
-             "correspondence ops and the three-case rule is evaluated on every real parse."),
+    "text": ("Proof (partial: four open findings name the gaps). Lean theorems over the model of the reused FieldWrapper, for "
+             "every n >= 2 (no bound) and every field type (scalar, List, Tuple): option absent -> every destination gets the "
+             "dataclass default whole (any default, a list/tuple of any length incl. n), or its own default instance's value "
+             "when every destination carries one; one value -> every destination gets it; n values -> the i-th destination "
+             "gets the i-th value in registration order (also stated by destination NAME for directly registered classes); any "
+             "other count (incl. 0 with the option present) -> InconsistentArgumentError; a successful run has exactly one "
+             "value per destination; tokens the type= callable accepts never fail later (success theorems); every token of a "
+             "list/tuple field is one whole container whose items are values of the container's item type (a bare item is a "
+             "one-element container; `[a,b]`, `a,b`, `a b` agree for identifier-like words; member names give members, "
+             "str2bool words booleans); two fields of one class do not interfere; the last of two occurrences wins. "
+             "DataclassWrapper.merge keeps destinations and default instances in registration order for directly registered "
+             "classes and for a nested member below registered classes (any n). Witness theorems refute the full statements "
+             "where the code fails them: heterogeneous tuples (all positions parsed by the first item type), default "
+             "instances at only some destinations, member-major order when the enclosing class has an own field. Sampled "
+             "only (correspondence + oracle, no theorem): what int/float words denote, deeper nesting than one member "
+             "level, more than two fields, the mixed-levels finding."),
     "note": ("Trusted: Lean kernel + propext/Classical.choice/Quot.sound; stdlib argparse and ast.literal_eval (their effect on "
-             "the structured token shapes is modelled, not verified); the harness. Modelled not verified: conflicts.py:317-354, "
-             "dataclass_wrapper.py:255-275,422-445, field_wrapper.py:168-229,354-458,711-821, utils.py:617-723. Mixed nesting "
-             "levels (the class both at top level and as a member) are checked end-to-end only (open finding); default "
-             "instances at only some destinations are checked by correspondence only."),
+             "the structured token shapes is modelled, not verified); the harness (incl. which wrappers clash first, checked "
+             "by op merge.dests). Modelled not verified: conflicts.py:324-361, dataclass_wrapper.py:255-275,422-445, "
+             "field_wrapper.py:168-229,356-464,466-542,720-833, utils.py:623-727."),
     "technique": "Lean 4 induction/arith over n and token lists + differential correspondence on real ALWAYS_MERGE parsers",
     "design_ref": "DESIGN.md section 5, C11",
 }
@@ -194,11 +210,24 @@ def spec_value(ty, tok):
 
 
 def dests_of(c):
+    """the destinations in REGISTRATION order (registrations in order, members of one registration in field order)"""
     if c["shape"] == "flat":
         return [f"d{a}" for a in range(c["r"])]
     if c["shape"] == "wrapped":
         return [f"d{a}.m" for a in range(c["r"])]
+    if c["shape"] == "deep":
+        return [f"d{a}.p.m" for a in range(c["r"])]
     return [f"d{a}.m{b}" for a in range(c["r"]) for b in range(c["k"])]
+
+
+def merged_order(c):
+    """position in the merged wrapper's `destinations` -> index into dests_of(c).  Registration order, except for
+    siblings at r > 1 destinations when S has an own field: the S wrappers clash (and merge) first, their children
+    pairwise, so the order becomes member-major (open finding C11-order-depends-on-own-field; op merge.dests checks
+    this computation against the real wrapper tree)."""
+    if c["shape"] == "siblings" and c["r"] > 1 and c.get("own"):
+        return [a * c["k"] + b for b in range(c["k"]) for a in range(c["r"])]
+    return list(range(n_of(c)))
 
 
 def n_of(c):
@@ -228,7 +257,7 @@ def src_of(c, fi):
         return {"k": "parents", "vs": [dest_default(c, fi, j) for j in range(c["r"]) if c["reg_mask"][j]]}
     if c["shape"] == "flat" or not c.get("member_default"):
         return {"k": "field", "v": f["default"]}
-    return {"k": "parents", "vs": [dest_default(c, fi, j) for j in range(n_of(c))]}
+    return {"k": "parents", "vs": [dest_default(c, fi, j) for j in merged_order(c)]}
 
 
 def class_specs(c):
@@ -244,6 +273,10 @@ def class_specs(c):
         # a member without default must precede defaulted fields
         members = [{"name": "m", "ty": {"k": "dc", "cls": "C"}, "default": md}]
         specs.append({"name": "P", "fields": (members + own) if not c.get("member_default") else (own + members)})
+    elif c["shape"] == "deep":      # Q{p: P{m: C}}: the merged class two levels below the registered one
+        md = {"kind": "factory", "v": None} if c.get("member_default") else {"kind": "missing"}
+        specs.append({"name": "P", "fields": [{"name": "m", "ty": {"k": "dc", "cls": "C"}, "default": md}]})
+        specs.append({"name": "Q", "fields": [{"name": "p", "ty": {"k": "dc", "cls": "P"}, "default": md}]})
     elif c["shape"] == "siblings":
         members = []
         for b in range(c["k"]):
@@ -261,7 +294,7 @@ def build_parser(c):
     U = new_universe().add_classes(class_specs(c))
     sp.reset_globals()
     parser = sp.make_parser({"cr": "ALWAYS_MERGE"})
-    top = U.classes["C"] if c["shape"] == "flat" else U.classes["P"]
+    top = U.classes[{"flat": "C", "deep": "Q"}.get(c["shape"], "P")]
     for a in range(c["r"]):
         if c["shape"] == "flat" and c.get("reg_mask") and c["reg_mask"][a]:
             kw = {f["name"]: U.val(f["reg_overrides"][a]) for f in c["fields"]
@@ -493,6 +526,18 @@ def project(case, obs):
 
 
 def project_model(case, mo):
+    if case["op"] == "merge.run" and isinstance(mo, dict) and mo.get("o") == "ok":
+        perm = merged_order(case["case"])
+        if perm != list(range(len(perm))):
+            out = []
+            for vs in mo["v"]:
+                reg = [None] * len(perm)
+                for pos, j in enumerate(perm):
+                    if pos < len(vs):
+                        reg[j] = vs[pos]
+                out.append(reg)
+            return dict(mo, v=out)
+        return mo
     if case["op"] == "merge.dests":
         def conv(t):
             return {"dests": t["dests"], "defaults": len(t["defaults"]), "children": [conv(x) for x in t["children"]]}
@@ -532,7 +577,10 @@ def _expect_field(c, fi, occ):
     elif k == n:
         main = ("ok", [vals])
     elif k == 0:
-        main = ("reject", {"InconsistentArgumentError", "exit2"})
+        # the option given with no value: "any other number of values" -> InconsistentArgumentError; a field without
+        # default is required, and argparse itself rejects a required option without value (status 2)
+        has_default = all(dest_default(c, fi, j) is not None for j in range(n))
+        main = ("reject", {"InconsistentArgumentError"} if has_default else {"exit2"})
     else:
         main = ("reject", {"InconsistentArgumentError"})
     return main
@@ -548,10 +596,15 @@ def oracle(case, obs):
     n = n_of(c)
     occs = {}
     for occ in c["argv"]:
-        occs[occ["f"]] = occ  # generated command lines give every option at most once
+        if occ["f"] in occs:
+            return []  # an option given twice: the property does not say which occurrence counts (correspondence only)
+        occs[occ["f"]] = occ
     exps = [_expect_field(c, fi, occs.get(fi)) for fi in range(len(c["fields"]))]
     if any(e[0] == "skip" for e in exps):
-        return []  # a word that is no value of the item type: the property says nothing
+        # a word that is no value of the item type: the property says nothing about that field — but when the parse
+        # nevertheless succeeded, the other fields are still judged
+        if obs["o"] != "ok" or any(e[0] == "reject" for e in exps):
+            return []
 
     def mains(e):
         return [e] if e[0] != "either" else [e[1], e[2]]
@@ -578,6 +631,8 @@ def oracle(case, obs):
         return [{"clause": "other-count", "detail": f"argv {obs['argv']} (n={n}) was accepted although field(s) {bad} have a value "
                                                     f"count outside {{1,{n}}} / no default: got {obs['v']}", "got": "ok"}]
     for fi, e in enumerate(exps):
+        if e[0] == "skip":
+            continue
         oks = [m for m in mains(e) if m[0] == "ok"]
         if not oks:
             continue
@@ -651,7 +706,96 @@ def _mixed(case, obs, fail):
     return False
 
 
-FINDINGS = {"C11-mixed-levels": _mixed}
+def is_hetero(ty):
+    return ty["k"] == "tuple" and any(it != ty["items"][0] for it in ty["items"])
+
+
+def _first_type_items(ty, tok):
+    """what the code makes of one token of a heterogeneous tuple: EVERY word converted by the FIRST item type
+    (None = that type rejects a word -> argparse error)"""
+    try:
+        return {"t": "tuple", "v": [spec_item(ty["items"][0], w) for w in tok_words(tok)]}
+    except Invalid:
+        return None
+
+
+def _hetero(case, obs, fail):
+    """a Tuple[T1,T2,..] with different item types, given on the command line: all positions are parsed by T1 —
+    values of the later types are rejected (exit 2) or arrive as T1 values"""
+    if case["op"] != "merge.run":
+        return False
+    c = case["case"]
+    n = n_of(c)
+    occs = {o["f"]: o for o in c["argv"]}
+    given = {fi: o for fi, o in occs.items() if is_hetero(c["fields"][fi]["ty"]) and o["toks"]}
+    if not given:
+        return False
+    if fail.get("clause") in ("outcome", "other-count"):
+        return fail.get("got") == "exit2" and any(_first_type_items(c["fields"][fi]["ty"], t) is None
+                                                  for fi, o in given.items() for t in o["toks"])
+    fi = fail.get("field")
+    if fi not in given or obs["o"] != "ok" or fail.get("clause") not in ("one", "n-values"):
+        return False
+    toks = given[fi]["toks"]
+    if len(toks) not in (1, n):
+        return False
+    ty = c["fields"][fi]["ty"]
+    for j in fail["dests"]:
+        got, pred = obs["v"][fi][j], _first_type_items(ty, toks[j if len(toks) == n else 0])
+        if got.get("t") != "tuple" or any(x.get("t") != ty["items"][0]["k"] for x in got["v"]):
+            return False        # not "every position parsed by the first item type"
+        if pred is not None and got != pred:
+            return False        # (pred None: a literal the first type converts in its own way, e.g. int(1.5))
+    return True
+
+
+def _partial_defaults(case, obs, fail):
+    """flat registrations, `default=instance` at some but not all destinations: with an instance at d0 only every
+    destination gets d0's values; without one at d0 all instances are dropped; with 2..n-1 instances incl. d0 set-up
+    raises AssertionError"""
+    if case["op"] != "merge.run":
+        return False
+    c = case["case"]
+    mask = c.get("reg_mask")
+    if c["shape"] != "flat" or not mask or all(mask) or not any(mask):
+        return False
+    n, m = n_of(c), sum(1 for x in mask if x)
+    if fail.get("clause") in ("outcome", "other-count"):
+        return fail.get("got") == "AssertionError" and mask[0] and 1 < m < n
+    fi = fail.get("field")
+    if fi is None or fail.get("given") is not None or obs["o"] != "ok" or fail.get("clause") not in ("absent", "whole-container"):
+        return False
+    if mask[0] and m > 1:
+        return False
+    predicted = dest_default(c, fi, 0) if mask[0] else c["fields"][fi]["default"]
+    return all(obs["v"][fi][j] == predicted for j in fail["dests"])
+
+
+def _order_own(case, obs, fail):
+    """S{m0..m{k-1}: C} with an own field on S at r > 1 destinations: n values are handed out member-major
+    (d0.m0, d1.m0, .., d0.m1, ..) instead of in registration order"""
+    if case["op"] != "merge.run":
+        return False
+    c = case["case"]
+    if not (c["shape"] == "siblings" and c["r"] > 1 and c.get("own")) or obs["o"] != "ok":
+        return False
+    fi = fail.get("field")
+    n = n_of(c)
+    if fi is None or fail.get("given") != n or fail.get("clause") not in ("n-values", "whole-container"):
+        return False
+    toks = [o for o in c["argv"] if o["f"] == fi][0]["toks"]
+    try:
+        vals = [spec_value(c["fields"][fi]["ty"], t) for t in toks]
+    except Invalid:
+        return False
+    predicted = [None] * n
+    for pos, j in enumerate(merged_order(c)):
+        predicted[j] = vals[pos]
+    return obs["v"][fi] == predicted
+
+
+FINDINGS = {"C11-mixed-levels": _mixed, "C11-hetero-tuple": _hetero, "C11-partial-default-instances": _partial_defaults,
+            "C11-order-depends-on-own-field": _order_own}
 
 
 # ------------------------------------------------------------------------------------------------
@@ -726,6 +870,9 @@ def rand_default(rng, ty, n, force_len=None):
     return {"t": "list" if ty["k"] == "list" else "tuple", "v": [spec_item(it, rand_default_word(rng, it)) for it in its]}
 
 
+HETERO = [{"k": "tuple", "items": [{"k": "int"}, {"k": "str"}]}, {"k": "tuple", "items": [{"k": "str"}, {"k": "int"}]}]
+
+
 def field_types(n):
     out = []
     for it in ITEMS:
@@ -736,6 +883,7 @@ def field_types(n):
         out.append({"k": "tuple", "items": [it] * n})
         out.append({"k": "tuple", "items": [it] * 2})
         out.append({"k": "tuple", "items": [it]})
+    out += HETERO
     return out
 
 
@@ -774,9 +922,9 @@ def random_cases(rng, tier):
     total = 2000 if tier == "quick" else 20000
     ns = [2, 3, 4] if tier == "quick" else [2, 3, 4, 5, 6]
     for _ in range(total):
-        shape = rng.choice(["flat", "flat", "wrapped", "siblings"])
+        shape = rng.choice(["flat", "flat", "flat", "wrapped", "siblings", "siblings", "deep"])
         if shape == "siblings":
-            r, k = rng.choice([(1, 2), (1, 3), (2, 2), (1, 4), (3, 2), (2, 3)] if tier == "thorough" else [(1, 2), (1, 3), (2, 2), (1, 4)])
+            r, k = rng.choice([(1, 2), (1, 3), (2, 2), (1, 4), (3, 2), (2, 3)] if tier == "thorough" else [(1, 2), (1, 3), (2, 2), (2, 2), (1, 4)])
         else:
             r, k = rng.choice(ns), 1
         n = r * k
@@ -806,10 +954,22 @@ def random_cases(rng, tier):
             if cnt is None:
                 cnt = rng.choice([x for x in range(2, n + 2) if x != n])
             argv.append({"f": fi, "toks": [_fix_len(rand_tok(rng, ty, 0.04)) for _ in range(cnt)]})
-        own = shape != "flat" and rng.random() < 0.5 and not (shape == "siblings" and r > 1)
+        if argv and rng.random() < 0.06:
+            # the same option a second time (argparse `store`: the last occurrence counts; correspondence only)
+            fi = rng.choice(argv)["f"]
+            cnt = rng.choice([1, n, n, 2])
+            argv.insert(rng.randrange(len(argv) + 1),
+                        {"f": fi, "toks": [_fix_len(rand_tok(rng, fields[fi]["ty"], 0.04)) for _ in range(cnt)]})
+        own = shape in ("wrapped", "siblings") and rng.random() < 0.5
         case = mk_case(shape, r, k, fields, argv, member_default=member_default, own=own)
-        if shape == "flat" and rng.random() < 0.3:
-            add_reg_defaults(rng, case["case"], [True] * r)
+        if shape == "flat":
+            x = rng.random()
+            if x < 0.25:
+                add_reg_defaults(rng, case["case"], [True] * r)
+            elif x < 0.40 and all(f["default"] is not None for f in fields):
+                # default instances at only some destinations (open finding C11-partial-default-instances)
+                mask = rng.choice([[i == 0 for i in range(r)], [i != 0 for i in range(r)], [rng.random() < 0.5 for _ in range(r)]])
+                add_reg_defaults(rng, case["case"], mask)
         yield case
 
 
@@ -831,7 +991,7 @@ def add_reg_defaults(rng, c, mask):
 
 def tok_cases(rng, tier):
     total = 1000 if tier == "quick" else 6000
-    tys = field_types(2) + [{"k": "tuple", "items": [{"k": "int"}, {"k": "str"}]}, {"k": "tuple", "items": [{"k": "str"}, {"k": "int"}]}]
+    tys = field_types(2) + [{"k": "tuple", "items": [{"k": "float"}, {"k": "bool"}, {"k": "int"}]}]
     for _ in range(total):
         ty = rng.choice(tys)
         if is_container(ty) and rng.random() < 0.35:
@@ -882,9 +1042,9 @@ def shape_cases(rng, tier):
     """set-up only: packaged defaults / nargs / required of one field (merge.pack) and the merged wrapper tree (merge.dests)"""
     total = 600 if tier == "quick" else 2500
     for _ in range(total):
-        shape = rng.choice(["flat", "wrapped", "siblings"])
+        shape = rng.choice(["flat", "wrapped", "siblings", "siblings", "deep"])
         if shape == "siblings":
-            r, k = rng.choice([(1, 2), (1, 3), (2, 2), (1, 4), (2, 3)])
+            r, k = rng.choice([(1, 2), (1, 3), (2, 2), (1, 4), (2, 3), (3, 2)])
         else:
             r, k = rng.choice([2, 3, 4, 5]), 1
         n = r * k
@@ -894,14 +1054,12 @@ def shape_cases(rng, tier):
         f = {"name": "fa", "ty": ty, "default": d}
         if shape == "siblings" and member_default and rng.random() < 0.5:
             f["overrides"] = [rand_default(rng, ty, n) if rng.random() < 0.5 else None for _ in range(k)]
-        own = shape != "flat" and rng.random() < 0.5
+        own = shape in ("wrapped", "siblings") and rng.random() < 0.5
         sc = {"shape": shape, "r": r, "k": k, "member_default": member_default, "own": own, "fields": [f]}
         if shape == "flat" and rng.random() < 0.5:
             # default instances at all / some / one of the destinations (set-up only: op merge.pack)
             add_reg_defaults(rng, sc, rng.choice([[True] * r, [rng.random() < 0.5 for _ in range(r)], [i == 0 for i in range(r)]]))
-        if not (shape == "siblings" and r > 1 and own):
-            # (with an own field on S the S wrappers merge first and the member order becomes member-major)
-            yield {"op": "merge.pack", "case": {"shape_case": sc, "fi": 0}}
+        yield {"op": "merge.pack", "case": {"shape_case": sc, "fi": 0}}
         yield dests_case(sc)
 
 
@@ -917,6 +1075,9 @@ def dests_case(sc):
     if shape == "flat":
         mask = sc.get("reg_mask") or [False] * r
         trees = [{"dests": [f"d{a}"], "defaults": [a] if mask[a] else [], "children": []} for a in range(r)]
+        root = "C"
+    elif shape == "deep":   # Q{p: P{m: C}}: the C wrappers (depth 2) clash directly
+        trees = [leaf(f"d{a}.p.m", a) for a in range(r)]
         root = "C"
     elif shape == "wrapped":
         if sc.get("own"):  # the first clash is on P's own field: P wrappers merge, children pairwise
@@ -973,15 +1134,29 @@ def tags(case, obs):
         n = n_of(c)
         t += [f"shape:{c['shape']}", f"n:{n}", f"fields:{len(c['fields'])}"]
         occs = {o["f"]: o for o in c["argv"]}
+        if len(occs) < len(c["argv"]):
+            t.append("option-repeated")
+        if c.get("own"):
+            t.append("own-field" + (":siblings-r>1" if c["shape"] == "siblings" and c["r"] > 1 else ""))
+        mask = c.get("reg_mask")
+        if mask:
+            t.append("default-instances:" + ("all" if all(mask) else "none" if not any(mask) else
+                                             "d0-only" if mask[0] and sum(mask) == 1 else "not-d0" if not mask[0] else "some-incl-d0"))
         for fi, f in enumerate(c["fields"]):
             ty = f["ty"]
-            t.append("ty:" + ty["k"])
+            t.append("ty:" + ty["k"] + (":hetero" if is_hetero(ty) else ""))
+            it = ty if not is_container(ty) else (ty["item"] if ty["k"] != "tuple" else ty["items"][0])
+            if it["k"] == "enum":
+                t.append("enum:" + it["cls"])
+            t.append("src:" + src_of(c, fi)["k"])
+            if f["default"] is None:
+                t.append("default:none")
             o = occs.get(fi)
             if o is None:
                 t.append("count:absent")
             else:
                 kk = len(o["toks"])
-                t.append("count:" + ("0" if kk == 0 else "1" if kk == 1 else "n" if kk == n else "other"))
+                t.append("count:" + ("0" if kk == 0 else "1" if kk == 1 else "n" if kk == n else "n+1.." if kk > n else "2..n-1"))
                 for tk in o["toks"]:
                     t.append("tok:" + (tk["k"] if tk["k"] != "bracket" else ("sq" if tk["sq"] else "paren")))
             d = f["default"]
